@@ -10,8 +10,9 @@ from vlib.runner import Prop
 
 SIZES = [(r"^nop$", 1), (r"^ret$", 1), (r"^jmp \*", 2), (r"^call \*", 2), (r"^jmp ", 2), (r"^jne ", 2), (r"^call ", 5), (r"^lea ", 7),
          (r"^mov .*@GOTPCREL", 7), (r"^mov .*\(%rip\), %eax", 6), (r"^\.byte 1, 2, 3$", 3), (r"^\.byte 1$", 1), (r"^\.long ", 4), (r"^\.zero 3$", 3),
-         (r"^\.quad ", 8), (r'^\.ascii "ab"$', 2), (r'^\.string "hi"$', 3), (r'^\.asciz "x"$', 2), (r"^\.[us]leb128 ", 1), (r"^\.(p2)?align ", 0)]
-OPERAND = {"jmp": 1, "jne": 1, "call": 1, "lea": 3, "mov": 3}      # offset of the symbolic operand; mov t+4(%rip),%eax: 2
+         (r"^\.quad ", 8), (r"^movl \$", 10), (r"^movw \$", 9), (r"^cmpb \$", 7), (r'^\.ascii "ab"$', 2), (r'^\.string "hi"$', 3), (r'^\.asciz "x"$', 2), (r"^\.[us]leb128 ", 1), (r"^\.(p2)?align ", 0)]
+OPERAND = {"jmp": 1, "jne": 1, "call": 1, "lea": 3, "mov": 3, "movl": 2, "movw": 3, "cmpb": 2}      # offset of the symbolic operand; mov t+4(%rip),%eax: 2
+STORE = r"^(movl|movw|cmpb) \$\d+, ([A-Za-z_.0-9]+)()([+-]\d+)?\(%rip\)"      # the operand is followed by an immediate
 
 
 def layout(lines):
@@ -51,7 +52,7 @@ def check_result(lines, res, msyms, pie, unreachable=False):
         if len(sec.data) != ends.get(name, 0):
             return f"section {name}: {len(sec.data)} bytes, the text asks for {ends.get(name, 0)}"
     # ---- instructions: independent disassembly of the bytes at the positions of the instruction lines
-    MN = {"nop": "nop", "ret": "ret", "jmp": "jmp", "jne": "jne", "call": "call", "lea": "lea", "mov": "mov"}
+    MN = {"nop": "nop", "ret": "ret", "jmp": "jmp", "jne": "jne", "call": "call", "lea": "lea", "mov": "mov", "movl": "mov", "movw": "mov", "cmpb": "cmp"}
     for sect, off, ln, size in items:
         word = ln.split()[0]
         if word in MN:
@@ -120,7 +121,7 @@ def check_result(lines, res, msyms, pie, unreachable=False):
     # ---- symbolic operands
     for sect, off, ln, size in items:
         word = ln.split()[0]
-        m = re.match(r"^(jmp|jne|call|lea|mov|\.quad|\.long) ([A-Za-z_.0-9]+)(@[A-Z]+)?([+-][A-Za-z_.0-9]+)?", ln)
+        m = re.match(STORE, ln) or re.match(r"^(jmp|jne|call|lea|mov|\.quad|\.long) ([A-Za-z_.0-9]+)(@[A-Z]+)?([+-][A-Za-z_.0-9]+)?", ln)
         if not m or "*" in ln or m.group(2).isdigit():
             continue
         sec = res.sections[sect]
@@ -139,14 +140,14 @@ def check_result(lines, res, msyms, pie, unreachable=False):
             addend = int(tail) if tail and re.match(r"^[+-]\d+$", tail) else 0
             if e.offset != addend:
                 return f"`{ln}`: addend {e.offset}, expected {addend}"
-        wsize = {".quad": 8, ".long": 4, "jmp": 1, "jne": 1, "call": 4, "lea": 4, "mov": 4}[word]
+        wsize = {".quad": 8, ".long": 4, "jmp": 1, "jne": 1, "call": 4, "lea": 4, "mov": 4, "movl": 4, "movw": 4, "cmpb": 4}[word]
         if sec.symbolic_expression_sizes.get(opoff) != wsize:
             return f"`{ln}`: operand size {sec.symbolic_expression_sizes.get(opoff)}, expected {wsize}"
     # every expression belongs to some line
     expected_positions = set()
     for sect, off, ln, size in items:
         word = ln.split()[0]
-        if re.match(r"^(jmp|jne|call|lea|mov|\.quad|\.long|\.[us]leb128) [A-Za-z_.]", ln) and "*" not in ln:
+        if (re.match(STORE, ln) or re.match(r"^(jmp|jne|call|lea|mov|\.quad|\.long|\.[us]leb128) [A-Za-z_.]", ln)) and "*" not in ln:
             expected_positions.add((sect, off + (0 if word.startswith(".") else (2 if ln.endswith("%eax") else OPERAND[word]))))
     for name, sec in res.sections.items():
         for p in sec.symbolic_expressions:
